@@ -120,6 +120,18 @@ func vC16Timeout(n int) {
 	d := vDuration("d")
 	p := &vProbe{name: "src"}
 	out := vNewStamped()
+	// a slow consumer: the clock passes inside one of its Next callbacks (a quiet period counts
+	// from the emission of the last value, however long its delivery takes)
+	slowAt := vChoice("slowAt", n+1) // n: never
+	slow := vGap("slow")
+	stamp := out.rec.hook
+	out.rec.hook = func(r *vRecorder, kind int, idx int) {
+		stamp(r, kind, idx)
+		if kind == vkNext && idx == slowAt {
+			vAdvance(slow)
+			vQuiesce()
+		}
+	}
 	Timeout[int64](time.Duration(d))(p).SubscribeWithContext(context.Background(), vObs(out.rec, vFlatInt))
 	last := vNow()
 	ended := false
